@@ -15,7 +15,7 @@ pub static SCENARIO: Scenario = Scenario {
     rule: "byzantine sender / torn delivery against all 24 entry points with valid keys. Enumerated completely: each of the 8 correct headers followed by base64url of every decoded length 0..=400 (zeros / ones / seeded random; without footer, with the expected footer, with a trailing dot); every string of 0..6 segments over {empty, valid b64, invalid b64, padded b64} and header+0..4 such segments; Key::<N>::try_from for N in {24,32,48,49,64} on every hex length 0..=200 plus non-hex text. Authentic tokens whose exp/nbf/iat claims carry extreme or malformed values (year 0000/9999 with extreme offsets, leap seconds, impossible dates, 100 kB strings, 1e308, deeply nested JSON) parsed at extreme simulated instants. The event lists of the other scenario families (channel faults, mis-deliveries, expectation/validator configurations, builder histories) are borrowed and judged for crash freedom only. Sampled: every proper prefix of authentic tokens of every protocol/layer, arbitrary Unicode strings, large inputs, channel-fault outputs. A case is non-trivial when the string is not an authentic token for the verifier; distinct = distinct abstract traces (sequence of (op kind, fault kind, protocol, layer, verdict class, clause)).",
     runs: |t| match t {
         Tier::Quick => 72 + 24 + 5 + 24 + 400 + 1_100 + 800,
-        Tier::Thorough => 72 + 24 + 5 + 24 + 4000 + 11_000 + 12000,
+        Tier::Thorough => 72 + 24 + 5 + 24 + 20_000 + 66_000 + 60_000,
     },
     gen,
     judge: |run, obs| oracle::judge("C09", run, obs),
@@ -220,7 +220,7 @@ fn gen(ctx: &GenCtx, i: u64) -> Option<Run> {
         return Some(rb.finish());
     }
     let i4 = i3b - 24;
-    let n_prefix = if ctx.tier == Tier::Quick { 400 } else { 4000 };
+    let n_prefix = if ctx.tier == Tier::Quick { 400 } else { 20_000 };
     // ---- block D: every proper prefix of an authentic token (torn delivery)
     if i4 < n_prefix {
         let proto = if i4 < 8 { ALL_PROTOS[i4 as usize] } else { weighted_proto(&mut r) };
@@ -259,7 +259,7 @@ fn gen(ctx: &GenCtx, i: u64) -> Option<Run> {
     // channel-fault output, mis-delivery, expectation/validator configuration and builder history those
     // families produce is also "some token text handed to some entry point"
     let i5 = i4 - n_prefix;
-    let n_borrow = if ctx.tier == Tier::Quick { 1_100 } else { 11_000 };
+    let n_borrow = if ctx.tier == Tier::Quick { 1_100 } else { 66_000 };
     if i5 < n_borrow {
         let fams: [&crate::runner::Scenario; 11] = [
             &super::c03::SCENARIO, &super::c04::SCENARIO, &super::c05::C05, &super::c05::C06, &super::c07::SCENARIO, &super::c11::C11,
